@@ -211,6 +211,10 @@ func checkC14(c ConcatCase) Verdict {
 		var fcat []byte
 		for i, s := range c.Seqs {
 			b, ok := asm.FreshProcessBytes(c.headerFor(c.effMode(i)) + seqText(s))
+			if !ok && asm.FreshProcessUndecided(c.headerFor(c.effMode(i))+seqText(s)) {
+				v.Skip = "the gosk binary did not finish (time-out or start failure): inconclusive"
+				return v
+			}
 			if !ok {
 				v.Fail = fmt.Sprintf("part %d assembles in this process but the gosk binary fails on it\n--- part ---\n%s", i, c.headerFor(c.effMode(i))+seqText(s))
 				v.Sig = "C14|fresh-fails"
